@@ -92,9 +92,27 @@ class Run:
             raise Infra("empty trace for %s" % module)
         e = {"TRACE": allp}
         if env: e.update(env)
-        r = vlib.tlc(module, None, env=e, timeout=timeout, heap=heap, workers=workers)
-        if not r.ok:
-            raise Infra("trace validation %s did not complete:\n%s" % (module, r.out[-4000:]))
+        # A line the specification cannot even evaluate (a field the implementation did not produce, a value of the wrong shape)
+        # is a rejected line, not an infrastructure failure: TLC names the line (l = N); it is recorded as "unexplained-event",
+        # blanked, and validation is repeated so that the rest of the trace is still checked.
+        unexplained = {}
+        lines = open(allp).read().split("\n")
+        for attempt in range(25):
+            r = vlib.tlc(module, None, env=e, timeout=timeout, heap=heap, workers=workers)
+            if r.ok: break
+            m = re.search(r"Error: The behavior up to this point is:\s*State 1: <Initial predicate>\s*/\\ l = (\d+)", r.out) or \
+                re.search(r"/\\ l = (\d+)\s*/\\ st = \"todo\"", r.out)
+            if not m or "Error:" not in r.out or "Parsing or semantic analysis failed" in r.out:
+                raise Infra("trace validation %s did not complete:\n%s" % (module, r.out[-4000:]))
+            ln = int(m.group(1))
+            if ln in unexplained or ln < 1 or ln > n:
+                raise Infra("trace validation %s did not complete:\n%s" % (module, r.out[-4000:]))
+            unexplained[ln] = json.loads(lines[ln - 1])
+            # replace by a line every trace specification rejects cheaply (unknown operation), keeping line numbers stable
+            lines[ln - 1] = json.dumps({"op": "unexplained", "src": "blanked"})
+            with open(allp, "w") as f: f.write("\n".join(lines))
+        else:
+            raise Infra("trace validation %s: too many unevaluable lines" % module)
         if r.distinct < 2 * n:
             raise Infra("trace validation %s: %d lines but only %d states" % (module, n, r.distinct))
         self.states += r.distinct; self.transitions += r.generated
@@ -107,7 +125,9 @@ class Run:
         if fails or True:
             with open(allp) as f:
                 for i, line in enumerate(f, 1):
-                    if i in fails:
+                    if i in unexplained:
+                        res.append((unexplained[i], ["unexplained-event"]))
+                    elif i in fails:
                         res.append((json.loads(line), fails[i]))
                     elif len(self.samples) < 3 and (i % max(1, n // 3) == 1):
                         self.samples.append(_short(json.loads(line)))
